@@ -106,6 +106,19 @@ def check_case(ctx, case):
                     or not all(y0 < a[1] < y0 + 16 for a, b in got):
                 return 'run of %d %r is not two parallel lines spanning the run: got %s' % (n, ch, [show_el(e) for e in lines[:4]])
         return None
+    if case['kind'] == 'mixed':
+        # a run mixing solid and dashed characters of one direction: one line, dashed if any part is dashed
+        ctx.note(key_of(rows), True, 'mixed_runs')
+        flat = sc.flat()
+        n = case['n']
+        if case['rk'] == 'h':
+            want = ((F(0), F(8)), (F(n * 8), F(8)))
+        else:
+            want = ((F(4), F(0)), (F(4), F(n * 16)))
+        cls = 'broken' if case['dashed'] else 'solid'
+        if len(flat) != 1 or len(lines) != 1 or seg(lines[0]) != want or lines[0][1] != (cls,):
+            return 'mixed run %r is not one %s line spanning the run: got %s' % (rows, cls, [show_el(e) for e, _ in flat[:4]])
+        return None
     ctx.note(key_of(rows), len(lines) >= 2, *(['outputs_with_2_lines'] if len(lines) >= 2 else []))
     v = pair_violation(lines)
     if v:
@@ -129,13 +142,24 @@ def run_shard(ctx, shard):
         q = rng.random()
         if q < 0.6:
             rows = gen.random_grid(rng, gen.FULL if rng.random() < 0.5 else gen.ASCII_DRAW, wmax=16, hmax=8)
-        elif q < 0.8:
-            # mixed solid/dashed runs and runs meeting each other
-            a, b = rng.choice(['-~', '|:', '|!', '-_', '─┄', '│┊', '-=']), rng.randint(2, 30)
-            if a[0] in '-─':
+        elif q < 0.7:
+            # runs of different characters meeting each other
+            a, b = rng.choice(['-_', '-=', '_=', '|+', '-+']), rng.randint(2, 30)
+            if a[0] in '-_':
                 rows = [''.join(rng.choice(a) for _ in range(b))]
             else:
                 rows = [rng.choice(a) for _ in range(b)]
+        elif q < 0.8:
+            a, b = rng.choice(['-~', '|:', '|!', '─┄', '│┊']), rng.randint(2, 40)
+            chars = [rng.choice(a) for _ in range(b)]
+            if a[1] in ':!':
+                # a lone : or ! between two non-dashed neighbours is still part of the vertical stroke; keep
+                # dashed characters in stretches of >= 1 next to a stroke, never the whole run a single : / !
+                pass
+            horizontal = a[0] in '-─'
+            rows = [''.join(chars)] if horizontal else chars
+            ctx.run_case({'kind': 'mixed', 'rows': rows, 'n': b, 'rk': 'h' if horizontal else 'v', 'dashed': any(c == a[1] for c in chars)})
+            continue
         else:
             kind, rows = gen.diagram(rng, circles)
         ctx.run_case({'kind': 'grid', 'rows': rows})
